@@ -15,7 +15,7 @@ import time
 import traceback
 from dataclasses import dataclass, field
 from pathlib import Path
-from typing import Any, Callable, Dict, Iterable, List, Optional
+from typing import Any, Callable, Dict, Iterable, List, Optional, Tuple
 
 VERIF = Path(__file__).resolve().parent.parent
 REPO = Path(os.environ.get("SA_REPO", "/repo"))
@@ -108,6 +108,7 @@ class Ctx:
         self._cache: Dict[str, Any] = {}
         self.obligations: Dict[str, List[Obligation]] = {}
         self.skipped: Dict[str, str] = {}
+        self.undecided_list: List[Tuple[str, str, str]] = []
         self.errors: List[AnalysisError] = []
         self._current: Optional[RuleInfo] = None
         self.units: Dict[str, Any] = {}
@@ -148,6 +149,19 @@ class Ctx:
     def info(self, construct: str, message: str, **kw):
         return self.ob(construct, True, message, info=True, **kw)
 
+    def undecided(self, construct: str, reason: str, **kw):
+        """A sub-check whose idiom is not present in the current source: recorded, reported as UNDECIDED, never an alarm.
+        (A frozen source fragment must not be demanded: code that does the same thing differently is not a violation.)"""
+        rid = kw.pop("rule", None) or self._current.rid
+        self.undecided_list.append((rid, construct, reason))
+        return self.ob(construct, True, "not decided: " + reason, info=True, rule=rid, **kw)
+
+    def idiom(self, construct: str, shape: Optional[bool], ok: bool, message: str = "", **kw):
+        """shape None/False: the idiom the check reads is not in the source -> undecided; else an ordinary obligation."""
+        if not shape:
+            return self.undecided(construct, "the code no longer has the shape this sub-check reads", **{k: v for k, v in kw.items() if k in ("file", "line", "props", "rule")})
+        return self.ob(construct, ok, message, **kw)
+
     def need(self, cond: bool, construct: str, reason: str):
         if not cond:
             raise AnalysisError(self._current.rid if self._current else "?", construct, reason)
@@ -161,7 +175,7 @@ class Ctx:
         self.obligations[rid] = []
         try:
             info.fn(self)
-            n = len([o for o in self.obligations[rid] if not o.info])
+            n = len([o for o in self.obligations[rid] if not o.info]) + len([u for u in self.undecided_list if u[0] == rid])
             if n < info.floor:
                 if info.soft:
                     self.skipped[rid] = f"idiom not found ({n} < {info.floor} instances)"
@@ -259,6 +273,9 @@ def check_property(ctx: Ctx, prop: str, meta: dict, seed: int = 0, out=sys.stdou
     for rid, why in ctx.skipped.items():
         if rid in rids:
             print(f"SKIPPED {rid}: {why}", file=out)
+    for rid, construct, why in ctx.undecided_list:
+        if rid in rids:
+            print(f"UNDECIDED {rid} {construct}: {why}", file=out)
     for f in new:
         status = 1
         safe = re.sub(r"[^A-Za-z0-9_.-]+", "_", f.key)
@@ -300,12 +317,13 @@ def check_property(ctx: Ctx, prop: str, meta: dict, seed: int = 0, out=sys.stdou
             "engine fact (resolved method, grammar member, parsed procedure), none is a trivial leaf",
             "obligations": len(real),
             "discharged": len([o for o in real if o.ok]),
-            "exhaustive": not errors and not any(r in ctx.skipped for r in rids),
+            "exhaustive": not errors and not any(r in ctx.skipped for r in rids) and not any(r in rids for r, _, _ in ctx.undecided_list),
             "samples": samples[:80],
             "instances_per_rule": {rid: len([o for o in ctx.obligations.get(rid, []) if not o.info]) for rid in rids},
             "known_findings": sorted(f.key for f in known_hit),
             "new_findings": sorted(f.key for f in new),
             "skipped_rules": {r: w for r, w in ctx.skipped.items() if r in rids},
+            "undecided": [f"{r}:{c}: {w}" for r, c, w in ctx.undecided_list if r in rids],
             "analysis_errors": [str(e) for e in errors],
             "units_analysed": ctx.units,
             "checker_cmd": f"/venv/bin/python -m sa.check {prop} --tier {ctx.tier}",
